@@ -47,6 +47,37 @@ theorem normal_equations (N : ℕ) (ps : List (Contrib K)) (a : ℕ → K)
     intro m _
     rw [pow_add]; ring
 
+/-! ### structure of the two sides: geometry only / linear in the image / masked pixels / visiting order -/
+
+/-- the normal matrix is built from the geometry and the weights alone: the image values never enter it -/
+theorem weightMoment_indep_of_data (ps : List (Contrib K)) (g : K → K) (k : ℕ) :
+    weightMoment (ps.map fun p => ⟨p.ω, p.t, g p.v⟩) k = weightMoment ps k := by
+  simp only [weightMoment, List.map_map]
+  rfl
+
+/-- the right-hand sides are **linear in the image**: superposition of two images on the same pixel set -/
+theorem dataMoment_linear (ps : List (Contrib K)) (u : Contrib K → K) (a b : K) (n : ℕ) :
+    dataMoment (ps.map fun p => ⟨p.ω, p.t, a * p.v + b * u p⟩) n
+      = a * dataMoment ps n + b * dataMoment (ps.map fun p => ⟨p.ω, p.t, u p⟩) n := by
+  simp only [dataMoment, lsum_eq_sum, pow_eq, List.map_map]
+  induction ps with
+  | nil => simp
+  | cons p ps ih =>
+    simp only [List.map_cons, List.sum_cons, Function.comp] at ih ⊢
+    rw [ih]; ring
+
+/-- a pixel of zero weight **and** zero value contributes nothing to either side: masked pixels can be dropped or kept -/
+theorem moments_drop_zero (ps : List (Contrib K)) (t : K) (n : ℕ) :
+    weightMoment (⟨0, t, 0⟩ :: ps) n = weightMoment ps n ∧ dataMoment (⟨0, t, 0⟩ :: ps) n = dataMoment ps n := by
+  simp [weightMoment, dataMoment, lsum_eq_sum]
+
+/-- in exact arithmetic the moments do not depend on the order in which the pixels are visited (floating-point summation order is
+    outside the model; the check compares the implementation with the model to a rounding tolerance) -/
+theorem moments_perm (ps qs : List (Contrib K)) (h : ps.Perm qs) (n : ℕ) :
+    weightMoment ps n = weightMoment qs n ∧ dataMoment ps n = dataMoment qs n := by
+  simp only [weightMoment, dataMoment, lsum_eq_sum]
+  exact ⟨(h.map _).sum_eq, (h.map _).sum_eq⟩
+
 variable [DecidableEq K]
 
 /-- the coded 2×2 adjugate inverse solves the Hankel system -/
